@@ -12,6 +12,9 @@ pub struct C15 {
     pauses_since_reset: u32,
     last_reset: i64,
     steps: u64,
+    /// the latest instant up to which the GLOBAL pause state has ever scheduled the protocol to
+    /// stay paused (max over history of start + 1800 while the flag was set)
+    horizon: i64,
 }
 
 impl Default for C15 {
@@ -29,12 +32,14 @@ impl Default for C15 {
             "canary_unblocked_at_exactly_until",
             "canary_blocked_one_second_before",
             "canary_run",
+            "canary_after_every_scheduled_pause_ran_out",
         ]);
         C15 {
             cov,
             pauses_since_reset: 0,
             last_reset: 0,
             steps: 0,
+            horizon: 0,
         }
     }
 }
@@ -196,6 +201,31 @@ impl Monitor for C15 {
         // refused for the pause at the cached expiry second, nor within 3600 s from now
         if s.is_fork {
             return;
+        }
+        if let Some(u) = until(&p1) {
+            self.horizon = self.horizon.max(u);
+        }
+        // "a pause that has run out stops blocking users immediately without anyone acting": once
+        // `now` is past every instant the global state ever scheduled, no group may still refuse
+        // users for the pause, whatever its cache says (a cache can lag behind, never run ahead)
+        if now >= self.horizon && self.horizon > 0 {
+            for (gk, g) in model::all_groups(s.post) {
+                let c = g.panic_state_cache;
+                if c.pause_flags & 1 == 0 {
+                    continue;
+                }
+                let pause_related = pause_ix.is_some() || s.tx.ixs.iter().any(|x| x.tag == "propagate_fee_state");
+                if !(pause_related || self.steps % 16 == 0) {
+                    continue;
+                }
+                let Some(tx) = canary_deposit(s.post, &gk) else { continue };
+                self.cov.probe("canary_after_every_scheduled_pause_ran_out");
+                let (o, _) = s.exec.execute(s.post, s.clock, &tx);
+                if o.code() == Some(codes::PROTOCOL_PAUSED) {
+                    out.push(viol("C15", "user_still_blocked_after_pause_ran_out", "deposit",
+                        format!("group {gk}: cached start {} now {now}, but the global state never scheduled a pause beyond {}", c.pause_start_timestamp, self.horizon), idx));
+                }
+            }
         }
         self.steps += 1;
         let pause_related = pause_ix.is_some() || s.tx.ixs.iter().any(|x| x.tag == "propagate_fee_state");
